@@ -133,8 +133,8 @@ func (m *c20Leader) Stepdown(ctx context.Context, sr *command.StepdownRequest, a
 
 type c20Endpoint struct {
 	kind, method, path, query, body, ctype string
-	localOp                               string
-	marker                                string // must appear in the body of a forwarded answer ("" = none)
+	localOp                                string
+	marker                                 string // must appear in the body of a forwarded answer ("" = none)
 }
 
 func TestVerifC20HTTP(t *testing.T) {
